@@ -9,6 +9,11 @@ import corpus
 TOK12 = ["a", "1", ".", "(", ")", "[", "]", "{", "}", ",", ";", ":"]
 TOK16 = TOK12 + ["=", "=>", "switch", "if"]
 TOK8 = ["(", ")", "[", "]", "{", "}", ".", ","]
+# keyword-heavy sets: declarations and control flow nested inside constructs that pass a recovery
+# set down (type annotations, parameters, casts, conditions, switch arms)
+TOKK1 = [".", "(", ")", "struct", "enum", "{", "}", "if", "else", "a", ":", "=", ","]
+TOKK2 = ["a", "[", "]", "switch", "=>", "while", "comptime", "distinct", "{", "}", "(", ")", ".",
+         "in", "`"]
 
 
 def validate(chk, name, trace, expect_n, describe):
@@ -44,6 +49,14 @@ def enum(chk, name, toks, maxlen, full):
 def run(chk):
     def d12(r):
         return " ".join(TOK12[k] for k in r.get("seq", []))
+    extra = [("k1", TOKK1), ("k2", TOKK2)]
+    klen = 4 if chk.tier == "quick" else 5
+    ktotal = 0
+    for name, toks in extra:
+        ko, kn = enum(chk, name, toks, klen, False)
+        validate(chk, name, ko, kn, lambda r, toks=toks: " ".join(toks[k] for k in r.get("seq", [])))
+        os.remove(ko)
+        ktotal += kn
     if chk.tier == "quick":
         out, n = enum(chk, "e12", TOK12, 4, True)
         validate(chk, "e12", out, n, d12)
@@ -80,6 +93,7 @@ def run(chk):
     tout = os.path.join(chk.wd, "texts.ndjson")
     common.harness(["parse-file", "--in", tin, "--out", tout, "--par", "12"])
     validate(chk, "texts", tout, 0, lambda r: texts[r["idx"]])
+    total += ktotal
     chk.cov["evaluations"] = 2 * (total + len(texts))
     chk.cov["distinct_nontrivial"] = total + len(set(texts))
     chk.cov["rule"] = ("every token sequence of the enumerated spaces rendered with single spaces "
